@@ -180,6 +180,12 @@ class H5netcdfArray(NetCDFFileMixin, FileArrayMixin, abstract.Array):
         self.close(dataset0)
         del dataset, dataset0
 
+        if not self.ndim:
+            # A missing scalar is returned by the indexer as the
+            # numpy masked constant: make it a 0-d array (as
+            # NetCDF4Array does)
+            array = array.squeeze()
+
         return array
 
     def _set_attributes(self, var):
